@@ -1,8 +1,10 @@
 // ---- env/tokio.rs: channels, mutex + table, timer (assumed contracts) -------------------------
 pub mod oneshot {
     use super::*;
-    pub struct Sender<T> { pub p: core::marker::PhantomData<T> }
-    pub struct Receiver<T> { pub p: core::marker::PhantomData<T> }
+    // `id`: ghost identity (a struct of PhantomData only would be single-valued: any two values provably equal)
+    pub struct Sender<T> { pub p: core::marker::PhantomData<T>, pub id: Ghost<int> }
+    // `id`: ghost identity (a struct of PhantomData only would be single-valued: any two values provably equal)
+    pub struct Receiver<T> { pub p: core::marker::PhantomData<T>, pub id: Ghost<int> }
     // the receiver yields exactly what is (ever) sent on its sender: `fate`
     #[verifier::external_body]
     pub fn channel<T>() -> (r: (Sender<T>, Receiver<T>)) ensures r.1.will_receive() == r.0.fate() { unimplemented!() }
@@ -20,14 +22,18 @@ pub mod oneshot {
 }
 pub mod mpsc {
     use super::*;
-    pub struct Sender<T> { pub p: core::marker::PhantomData<T> }
-    pub struct Receiver<T> { pub p: core::marker::PhantomData<T> }
+    // `id`: ghost identity (a struct of PhantomData only would be single-valued: any two values provably equal)
+    pub struct Sender<T> { pub p: core::marker::PhantomData<T>, pub id: Ghost<int> }
+    // `id`: ghost identity (a struct of PhantomData only would be single-valued: any two values provably equal)
+    pub struct Receiver<T> { pub p: core::marker::PhantomData<T>, pub id: Ghost<int> }
     pub struct SendError<T>(pub T);
     #[verifier::external_body]
     pub fn channel<T>(buffer: usize) -> (r: (Sender<T>, Receiver<T>))
         requires buffer == 1,   // the queue model of env/paystate_env.rs is for capacity-1 channels (C06b)
     { unimplemented!() }
 }
-pub struct HashMap<K, V> { pub p: core::marker::PhantomData<(K, V)> }
-pub struct Mutex<T> { pub p: core::marker::PhantomData<T> }
+// `id`: ghost identity (a struct of PhantomData only would be single-valued: any two values provably equal)
+pub struct HashMap<K, V> { pub p: core::marker::PhantomData<(K, V)>, pub id: Ghost<int> }
+// `id`: ghost identity (a struct of PhantomData only would be single-valued: any two values provably equal)
+pub struct Mutex<T> { pub p: core::marker::PhantomData<T>, pub id: Ghost<int> }
 pub struct MutexGuard<T> { pub p: core::marker::PhantomData<T>, pub snap: Ghost<World> }
